@@ -4,6 +4,7 @@ CONSTANTS
   Threads = {1, 2}
   MaxOps = 100000
   MaxRetry = 200
+  MaxLinks = 0
   RetryView = 200
 INVARIANTS TraceNoDoubleOwner TraceNoForeignWrite TraceSizeBound TraceIdleSizeExact TraceQuiescent
 POSTCONDITION TraceAccepted
